@@ -1954,8 +1954,9 @@ def mnemo_from_att(prefix, name, args, asm_format):
         if name.endswith('w'):
             name = name[:-1]
             mnemo_from_att_set_size(x86_afs.u16, args)
-        elif len(name) > 5 and name.endswith('l'):
-            # Don't transform cmovl to cmov
+        elif len(name) > 5 and name.endswith('l') \
+                and not name in x86mndb.mnemo_lookup:
+            # Don't transform cmovl to cmov, nor cmovnl to cmovn
             name = name[:-1]
             mnemo_from_att_set_size(x86_afs.u32, args)
         else:
